@@ -110,6 +110,20 @@ class State:
 
     # ---- C01 -------------------------------------------------------------------------------------------
     def o_inv(self, h):
+        self.C(h)          # a missing handle is a harness problem, not a property failure
+        try:
+            return self._inv(h)
+        except Exception as e:
+            return 'FAIL inspecting %s through the public API raised %s: %r' % (h, type(e).__name__, e)
+
+    def o_inv_all(self):
+        for h, c in self.ex.objs.items():
+            r = self.o_inv(h)
+            if r != 'ok':
+                return r
+        return 'ok'
+
+    def _inv(self, h):
         c = self.C(h)
         ss = B.simplices(c)
         if len(ss) != len(set(ss)):
@@ -999,6 +1013,50 @@ class State:
         if isinstance(d['a'].get('x'), SimplicialComplex):
             return 'ok KNOWN KF-C17-marker'
         return 'FAIL attribute value came back as %r' % (d['a'],)
+
+    def o_sameobs(self, ha, hb):
+        """two complexes are observably identical, including the next generated name"""
+        a, b = self.C(ha), self.C(hb)
+        if full_state(a) != full_state(b):
+            return 'FAIL %s and %s differ' % (ha, hb)
+        if self.ex.obs(a) != self.ex.obs(b):
+            return 'FAIL %s and %s differ in the next generated name: %s / %s' % (ha, hb, self.ex.obs(a)[-12:], self.ex.obs(b)[-12:])
+        return 'ok'
+
+    def o_noalias(self, h):
+        """containers returned by queries are not the complex's own state: changing them changes nothing"""
+        c = self.C(h)
+        before = full_state(c)
+        nxt = self.ex.obs(c)
+        mo = B.maxOrder(c)
+        got = [c.simplices(), c.simplices(reverse=True), c.numberOfSimplicesOfOrder()]
+        got += [c.simplicesOfOrder(k) for k in range(-1, mo + 2)]
+        for s in list(B.simplices(c)):
+            got += [c.faces(s), c.cofaces(s), c.basisOf(s), c.closureOf(s), c.partOf(s)]
+        for k in range(0, mo + 2):
+            M = c.boundaryOperator(k)
+            if M.size and M.flags.writeable:
+                got.append(M)
+            S = c.smithNormalForm(k)
+            if S.size and S.flags.writeable:
+                got.append(S)
+        z = c.Z(); bt = c.bettiNumbers()
+        got += list(z.values()) + [z, bt]
+        for g in got:
+            try:
+                if isinstance(g, list):
+                    g.reverse(); g.append('junk'); del g[0:1]
+                elif isinstance(g, set):
+                    g.clear()
+                elif isinstance(g, dict):
+                    g.clear()
+                elif isinstance(g, numpy.ndarray) and g is not None:
+                    pass
+            except Exception:
+                pass
+        if full_state(c) != before or self.ex.obs(c) != nxt:
+            return 'FAIL changing a container returned by a query changed the complex'
+        return 'ok'
 
 
 class _Fake:
